@@ -6,6 +6,7 @@ import Driver.OpsMutate
 import Driver.OpsUpdate
 import Driver.OpsNewMap
 import Driver.OpsXml
+import Driver.OpsEnc
 namespace Mxj.Drv
 
 def dispatch (op : String) (args : List String) : Out :=
@@ -29,6 +30,9 @@ def dispatch (op : String) (args : List String) : Out :=
   | "esc" => runP opEsc args
   | "unesc" => runP opUnesc args
   | "cast" => runP opCast args
+  | "xenc" => runP opXenc args
+  | "xrt" => runP opXrt args
+  | "implonly" => "na"
   | _ => "bad-op"
 
 end Mxj.Drv
